@@ -17,6 +17,9 @@ RULE = (
     "frames[k] IS (identity, for unique-object frames; == otherwise) stream[start+k], "
     "start_i > end_{i-1}. Non-trivial = at least one token and at least 3 runs in the pattern."
 )
+RULE += (
+    ' Exhaustive reuse part: every accepted parameter tuple with max_length <= 3 (thorough: 4) x every earlier stream of 1..5 (6) frames x how it was left (list run, generator unstarted / advanced one token and abandoned, two generators requested up front) x every later stream of 1..4 (5) frames: the used tokenizer must satisfy the property like a fresh one.'
+)
 MUST_HIT = ["cut_in_silence_with_drop", "init_candidate_abandoned", "kind_obj", "kind_int", "deliv_cb", "deliv_gen", "reused_tokenizer"]
 ASSUMPTIONS = ["harness sources hand out frames in stream order (vf/tok.py)"]
 
